@@ -1,5 +1,8 @@
 import AmcVerif.Prim.Base
-import AmcVerif.Gen.WordsU8
-import AmcVerif.Gen.WordsU16
-import AmcVerif.Gen.WordsU32
-import AmcVerif.Gen.WordsU64
+import AmcVerif.Model.Vec
+import AmcVerif.Props.C01
+import AmcVerif.Props.C05
+import AmcVerif.Props.C07
+import AmcVerif.Props.C08
+import AmcVerif.Props.C18
+import AmcVerif.Lemmas.Hint
